@@ -18,7 +18,11 @@ long codeUnit(const boost::optional<std::string> &u) { if (!u) return 0; return 
 long codeLabel(const boost::optional<std::string> &u) { if (!u) return 0; return *u == "time" ? 1 : *u == "dist" ? 2 : -99; }
 long codeLabels(const std::vector<std::string> &l) { if (l.empty()) return 0; if (l == labelsOf(1)) return 1; if (l == labelsOf(2)) return 2; return -99; }
 
+// typed descriptor handles as the append calls returned them, kept on the heap and never copied (a handle object may remember
+// things); valid until the descriptors are deleted or the session ends
+struct Kept { std::shared_ptr<nix::SetDimension> se; std::shared_ptr<nix::SampledDimension> sa; std::shared_ptr<nix::RangeDimension> ra; std::shared_ptr<nix::DataFrameDimension> fr; };
 struct S {
+    std::vector<Kept> kept;
     nix::File f; nix::Block b; nix::DataArray a; nix::DataFrame df;
     std::string path; bool numeric; long rank; nix::DataType numType = nix::DataType::Double;
     void create() {
@@ -31,11 +35,22 @@ struct S {
         df.rows(2);
     }
     void reopen(bool ro) {
+        kept.clear();
         f.close();
         f = nix::File::open(path, ro ? nix::FileMode::ReadOnly : nix::FileMode::ReadWrite);
         b = f.getBlock("b"); a = b.getDataArray("a"); df = b.getDataFrame("df");
     }
 };
+
+// the getters of a kept handle (same codes as the fresh observation)
+json keptView(const Kept &k) {
+    json r = {{"labels", 0}, {"interval", 0}, {"offset", 0}, {"ticks", 0}, {"label", 0}, {"unit", 0}};
+    if (k.se) { r["labels"] = codeLabels(k.se->labels()); r["label"] = codeLabel(k.se->label()); }
+    else if (k.sa) { r["interval"] = codeInterval(k.sa->samplingInterval()); r["offset"] = codeOffset(k.sa->offset()); r["label"] = codeLabel(k.sa->label()); r["unit"] = codeUnit(k.sa->unit()); }
+    else if (k.ra) { std::vector<double> t; try { t = k.ra->ticks(); } catch (...) {} r["ticks"] = codeTicks(t); r["label"] = codeLabel(k.ra->label()); r["unit"] = codeUnit(k.ra->unit()); }
+    else if (k.fr) { auto ci = k.fr->columnIndex(); r["col"] = ci ? (long) *ci : -1; r["size"] = (long) k.fr->size(); }
+    return r;
+}
 
 json observe(S &s) {
     json o = {{"dims", json::array()}, {"issues", json::array()}};
@@ -78,6 +93,15 @@ json observe(S &s) {
             } catch (const std::exception &e) { o["issues"].push_back(std::string("data-frame dimension getter threw: ") + e.what()); }
             break; }
         }
+        // a handle the client kept from the append call must show what a fresh look-up shows
+        if (i < s.kept.size()) {
+            try {
+                json kv = keptView(s.kept[i]);
+                for (const char *f : {"labels", "interval", "offset", "ticks", "label", "unit"})
+                    if (!s.kept[i].fr && kv[f] != r[f]) o["issues"].push_back(std::string("kept handle of descriptor ") + std::to_string(i + 1) + " shows another " + f + " than a fresh look-up");
+                if (s.kept[i].fr && (kv["col"] != r["col"] || kv["size"].get<long>() != (long) s.df.rows())) o["issues"].push_back("kept data-frame dimension handle differs from a fresh look-up");
+            } catch (const std::exception &e) { o["issues"].push_back(std::string("kept handle getter threw: ") + e.what()); }
+        }
         o["dims"].push_back(r);
     }
     // the array's own label / unit / data
@@ -99,19 +123,32 @@ std::string doStep(S &s, const json &st, long k) {
     long x = v["x"], y = v["y"], z = v["z"], w = v["w"];
     // the deprecated create*Dimension(index, ...) entry points (the index is ignored: they append) take their turn where their
     // arguments can express the call (no label / unit / offset arguments)
-    if (a == "AppendSet" && x == 0 && k % 3 == 2) return outcome([&] { s.a.createSetDimension((nix::ndsize_t) (s.a.dimensionCount() + 1)); });
-    if (a == "AppendSampled" && y == 0 && z == 0 && w == 0 && k % 2 == 1) return outcome([&] { s.a.createSampledDimension((nix::ndsize_t) (s.a.dimensionCount() + 1), intervalOf(x)); });
-    if (a == "AppendRange" && y == 0 && z == 0 && k % 2 == 1) return outcome([&] { s.a.createRangeDimension((nix::ndsize_t) (s.a.dimensionCount() + 1), ticksOf(x)); });
-    if (a == "AppendAlias" && k % 2 == 1) return outcome([&] { s.a.createAliasRangeDimension(); });
-    if (a == "AppendSet") return outcome([&] { s.a.appendSetDimension(labelsOf(x)); });
-    if (a == "AppendSampled") return outcome([&] { s.a.appendSampledDimension(intervalOf(x), labelOf(y), unitOf(z), offsetOf(w)); });
-    if (a == "AppendRange") return outcome([&] { s.a.appendRangeDimension(ticksOf(x), labelOf(y), unitOf(z)); });
-    if (a == "AppendAlias") return outcome([&] { s.a.appendAliasRangeDimension(); });
-    if (a == "AppendFrame") return outcome([&] { if (x == -1) s.a.appendDataFrameDimension(s.df); else if (k % 2 && x < 2) s.a.appendDataFrameDimension(s.df, x == 0 ? "c0" : "c1"); else s.a.appendDataFrameDimension(s.df, (unsigned) x); });
-    if (a == "DeleteAll") return outcome([&] { s.a.deleteDimensions(); });
+    if (a == "AppendSet" && x == 0 && k % 3 == 2) return outcome([&] { Kept q; q.se = std::make_shared<nix::SetDimension>(s.a.createSetDimension((nix::ndsize_t) (s.a.dimensionCount() + 1))); s.kept.push_back(q); });
+    if (a == "AppendSampled" && y == 0 && z == 0 && w == 0 && k % 2 == 1) return outcome([&] { Kept q; q.sa = std::make_shared<nix::SampledDimension>(s.a.createSampledDimension((nix::ndsize_t) (s.a.dimensionCount() + 1), intervalOf(x))); s.kept.push_back(q); });
+    if (a == "AppendRange" && y == 0 && z == 0 && k % 2 == 1) return outcome([&] { Kept q; q.ra = std::make_shared<nix::RangeDimension>(s.a.createRangeDimension((nix::ndsize_t) (s.a.dimensionCount() + 1), ticksOf(x))); s.kept.push_back(q); });
+    if (a == "AppendAlias" && k % 2 == 1) return outcome([&] { Kept q; q.ra = std::make_shared<nix::RangeDimension>(s.a.createAliasRangeDimension()); s.kept.push_back(q); });
+    if (a == "AppendSet") return outcome([&] { Kept q; q.se = std::make_shared<nix::SetDimension>(s.a.appendSetDimension(labelsOf(x))); s.kept.push_back(q); });
+    if (a == "AppendSampled") return outcome([&] { Kept q; q.sa = std::make_shared<nix::SampledDimension>(s.a.appendSampledDimension(intervalOf(x), labelOf(y), unitOf(z), offsetOf(w))); s.kept.push_back(q); });
+    if (a == "AppendRange") return outcome([&] { Kept q; q.ra = std::make_shared<nix::RangeDimension>(s.a.appendRangeDimension(ticksOf(x), labelOf(y), unitOf(z))); s.kept.push_back(q); });
+    if (a == "AppendAlias") return outcome([&] { Kept q; q.ra = std::make_shared<nix::RangeDimension>(s.a.appendAliasRangeDimension()); s.kept.push_back(q); });
+    if (a == "AppendFrame") return outcome([&] { Kept q; if (x == -1) q.fr = std::make_shared<nix::DataFrameDimension>(s.a.appendDataFrameDimension(s.df)); else if (k % 2 && x < 2) q.fr = std::make_shared<nix::DataFrameDimension>(s.a.appendDataFrameDimension(s.df, x == 0 ? "c0" : "c1")); else q.fr = std::make_shared<nix::DataFrameDimension>(s.a.appendDataFrameDimension(s.df, (unsigned) x)); s.kept.push_back(q); });
+    if (a == "DeleteAll") return outcome([&] { s.kept.clear(); s.a.deleteDimensions(); });
     if (a == "Reopen") return outcome([&] { s.reopen(false); });
     if (a.rfind("Set_", 0) == 0) {
         std::string f = a.substr(4);
+        // every other call goes through the handle kept from the append call instead of a fresh look-up
+        if (k % 2 == 0 && i >= 1 && (size_t) i <= s.kept.size()) {
+            Kept &q = s.kept[(size_t) i - 1];
+            if (f == "labels" && q.se) return outcome([&] { if (x == 0) q.se->labels(nix::none); else q.se->labels(labelsOf(x)); });
+            if (f == "interval" && q.sa) return outcome([&] { q.sa->samplingInterval(intervalOf(x)); });
+            if (f == "offset" && q.sa) return outcome([&] { if (x == 0) q.sa->offset(nix::none); else q.sa->offset(offsetOf(x)); });
+            if (f == "ticks" && q.ra) return outcome([&] { q.ra->ticks(ticksOf(x)); });
+            if (f == "label" && q.se) return outcome([&] { if (x == 0) q.se->label(nix::none); else q.se->label(labelOf(x)); });
+            if (f == "label" && q.sa) return outcome([&] { if (x == 0) q.sa->label(nix::none); else q.sa->label(labelOf(x)); });
+            if (f == "label" && q.ra) return outcome([&] { if (x == 0) q.ra->label(nix::none); else q.ra->label(labelOf(x)); });
+            if (f == "unit" && q.sa) return outcome([&] { if (x == 0) q.sa->unit(nix::none); else q.sa->unit(unitOf(x)); });
+            if (f == "unit" && q.ra) return outcome([&] { if (x == 0) q.ra->unit(nix::none); else q.ra->unit(unitOf(x)); });
+        }
         return outcome([&] {
             nix::Dimension d = s.a.getDimension((nix::ndsize_t) i);
             if (f == "labels") { auto sd = d.asSetDimension(); if (x == 0) { if (k % 2) sd.labels(std::vector<std::string>{}); else sd.labels(nix::none); } else sd.labels(labelsOf(x)); }
@@ -160,6 +197,7 @@ json handle(Ctx &c, const json &rec) {
             result = mismatch("outcome:" + all[i]["a"].get<std::string>(), all[i]["res"], r);
             break;
         }
+        if (!last) { for (auto &q : s.kept) { try { (void) keptView(q); } catch (...) {} } }
         if (last) {
             json exp = rec["post"]; exp["issues"] = json::array();
             for (auto &d : exp["dims"]) if (d["col"].is_null()) d["col"] = -1;
